@@ -310,6 +310,7 @@ func verifEndpointClose(k int) {
 		verifEP.conns[k].c.Close()
 	}
 }
+func verifSleepsUnder(fn string) int    { return 0 } // (engine only) time.Sleep calls executed below a function whose name contains fn
 func verifEndpointStallNew(on bool)     {} // (engine only) connections accepted from now on start out black-holing
 func verifEndpointStall(k int, on bool) {} // a black-holing peer cannot be forced natively (kernel buffers)
 
